@@ -527,6 +527,15 @@ def parts(tier):
         for order in orders:
             names = [TG_TIERS[i][1] for i in order]
             yield (order, None, True)
+            # a selection that names a tier more than once (as long as / longer than the tier list without covering it)
+            if len(names) >= 3:
+                same_kind = [n for n in names if (n in ("p", "q", "clicks", "beats", "marks")) == (names[0] in ("p", "q", "clicks", "beats", "marks"))]
+                if len(same_kind) >= 2:
+                    rep = (same_kind[0], same_kind[1]) * len(names)
+                    for preserve in (True, False):
+                        yield (order, rep[:len(names)], preserve)
+                        yield (order, rep[:len(names) + 1], preserve)
+                        yield (order, (names[0], names[0]), preserve)
             for k in range(0, len(names) + 1):
                 for sub in itertools.permutations(names, k) if k <= 2 or (k == 3 and order[0] >= 5 and len(order) <= 4) else itertools.combinations(names, k):
                     for preserve in (True, False):
